@@ -100,8 +100,33 @@ fn ground(args: &[String]) {
     }
 }
 
+/// batch <module> <check> <file-with-one-hex-input-per-line> : run the executable contract on every input,
+/// print the failing inputs (at most 200) and a summary line
+fn batch(args: &[String]) {
+    let text = std::fs::read_to_string(&args[2]).unwrap();
+    let mut tried = 0u64;
+    let mut failed = 0u64;
+    for line in text.lines() {
+        let input = unhex(line.trim());
+        tried += 1;
+        let (m, n, inp) = (args[0].clone(), args[1].clone(), input.clone());
+        let r = panic::catch_unwind(move || check(&m, &n, &inp));
+        match r {
+            Ok(Some(true)) => {}
+            Ok(_) => { println!("{{\"error\":\"unknown check\"}}"); return; }
+            Err(_) => {
+                failed += 1;
+                let msg = super::LAST.lock().unwrap().take().unwrap_or_default();
+                if failed <= 200 { println!("{{\"input\":\"{}\",\"message\":{:?}}}", hex(&input), msg); }
+            }
+        }
+    }
+    println!("{{\"tried\":{},\"failed\":{}}}", tried, failed);
+}
+
 pub fn command(cmd: &str, args: &[String]) {
     match cmd {
+        "batch" => batch(args),
         "ground" => ground(args),
         "find" => finder(args),
         "one" => one(args),
